@@ -853,13 +853,8 @@ pub fn replace(input_string_value: &Value, pattern_string_value: &Value, replace
           if clear_flag_q {
             flag_q = false;
           }
-          let mut patt = "".to_string();
-          for ch in pattern_string.chars() {
-            if flag_q {
-              patt.push('\\');
-            }
-            patt.push(ch);
-          }
+          // with the flag q every character of the pattern stands for itself
+          let patt = if flag_q { regex::escape(pattern_string) } else { pattern_string.clone() };
           if flags.is_empty() {
             if let Ok(re) = Regex::new(&patt) {
               let result = re.replace_all(input_string.as_str(), repl.as_str()).trim().to_string();
